@@ -61,17 +61,22 @@ def assocSet {β : Type} (k : Str) (v : β) : List (Str × β) → List (Str × 
 section
 variable {α : Type}
 
+/-- `group = db.get(key); if not group: group = {}` (an empty dict is falsy) -/
+def groupOrNew (db : Db α) (key : Str) : Group α :=
+  match assocGet key db with
+  | some g => if g.isEmpty then [] else g
+  | none => []
+
+/-- append the record to its name's list, creating the list if the name is new -/
+def addToGroup (g : Group α) (r : Rec α) : Group α :=
+  match assocGet (sanitize r.name) g with
+  | some l => assocSet (sanitize r.name) (l ++ [r]) g
+  | none => assocSet (sanitize r.name) [r] g
+
 /-- geocoder.py:451-463 `_add_location_to_db` -/
 def addRec (db : Db α) (r : Rec α) : Db α :=
   let key := sanitize (timezoneGroup r.tz)
-  let group : Group α := match assocGet key db with
-    | some g => if g.isEmpty then [] else g      -- `if not group:` — empty dict is falsy
-    | none => []
-  let lkey := sanitize r.name
-  let group' := match assocGet lkey group with
-    | some l => assocSet lkey (l ++ [r]) group
-    | none => assocSet lkey [r] group
-  assocSet key group' db
+  assocSet key (addToGroup (groupOrNew db key) r) db
 
 def allLocations (db : Db α) : List (Rec α) :=
   db.flatMap (fun g => g.2.flatMap (fun e => e.2))
@@ -82,23 +87,25 @@ def groupLookup (region : Str) (db : Db α) : Except Err (Group α) :=
   | some g => .ok g
   | none => .error .keyError
 
+/-- the (name, region) a query string denotes: sanitise, split at the first comma, strip quotes -/
+def parseQuery (location : Str) : Str × Str :=
+  let key := sanitize location
+  match splitFirst 44 key with
+  | (a, some b) => (stripQuotes a, stripQuotes b)
+  | (a, none) => (stripQuotes a, [])
+
 /-- geocoder.py:549-590 `lookup_in_group` -/
 def lookupInGroup (location : Str) (group : Group α) : Except Err (Rec α) :=
-  let key := sanitize location
-  let (name, region) := match splitFirst 44 key with
-    | (a, some b) => (a, b)
-    | (a, none) => (a, [])
-  let name := stripQuotes name
-  let region := stripQuotes region
-  match assocGet name group with
+  let q := parseQuery location
+  match assocGet q.1 group with
   | none => .error .keyError
   | some l =>
-    if region = [] then
+    if q.2 = [] then
       match l with
       | r :: _ => .ok r
       | [] => .error .indexError
     else
-      match l.find? (fun r => sanitize r.region = region) with
+      match l.find? (fun r => sanitize r.region = q.2) with
       | some r => .ok r
       | none => .error .keyError
 
